@@ -39,7 +39,7 @@ M2_PROPS = {"C01", "C13", "C14", "C18", "C19", "C20"}
 # properties that are also judged (by their trace predicate alone) on programs whose user functions call Invoke
 # from inside their bodies; every fifth generated program is of that kind
 R_PROPS = {"C02", "C05"}
-U_PROPS = {"C14", "C05"}      # a twelfth of their programs use inputs outside the model (gen.generate_valerr), judged by the predicates
+U_PROPS = {"C14", "C05", "C07", "C13"}   # a twelfth of their programs have functions with value-typed error results (gen.generate_valerr); in a DryRun container those are outside the model and judged by the predicates
 N_M2 = {"quick": (1, 300), "thorough": (10, 400)}
 
 
@@ -342,6 +342,7 @@ def worker(args):
             dist["mixed-profile-programs"] = dist.get("mixed-profile-programs", 0) + 1
         if pid in U_PROPS and k % 12 == 11:
             prog = gen.generate_valerr(seed, w)
+            dist["programs-with-value-typed-error-results"] = dist.get("programs-with-value-typed-error-results", 0) + 1
         elif pid in R_PROPS and k % 5 == 4:
             prog = gen.generate_reentrant(seed, w)
         else:
@@ -360,7 +361,7 @@ def worker(args):
             dist["dottext:texts-compared-as-documents"] = dist.get("dottext:texts-compared-as-documents", 0) + st["dottext"]
             dist["dottext:identical-byte-for-byte"] = dist.get("dottext:identical-byte-for-byte", 0) + st.get("dottext_same", 0)
         if st.get("unmodelled"):
-            dist["unmodelled-programs(value-typed-error-results)"] = dist.get("unmodelled-programs(value-typed-error-results)", 0) + 1
+            dist["unmodelled-programs(value-typed-error-results-in-DryRun)"] = dist.get("unmodelled-programs(value-typed-error-results-in-DryRun)", 0) + 1
         if st.get("reentrant"):
             dist["reentrant-programs"] = dist.get("reentrant-programs", 0) + 1
             if st.get("nontrivial"):
